@@ -269,6 +269,7 @@ def naf_contract(base, chk, w, positions=None):
     carry = z3.BitVec("carry", 64)
     nbad = 0
     nq = 0
+    model_ks = []
     poss = positions if positions is not None else range(256)
     tq = time.time()
     for pos in poss:
@@ -318,9 +319,9 @@ def naf_contract(base, chk, w, positions=None):
                 dg16 = z3.SignExt(8, dg)
                 goals.append(z3.And(dg16 > -(1 << (w - 1)), dg16 < (1 << (w - 1))))
             if q.outcome[0] == "stop":
-                if type(npos) is not int or not (pos < npos <= pos + w):
+                if type(npos) is not int or not (pos < npos):
                     nbad += 1
-                    chk.add(Ob("nonAdjacentForm(%d) pos=%d: next pos %r" % (w, pos, npos), "sat", 0, [fname], "BV"))
+                    chk.add(Ob("nonAdjacentForm(%d) pos=%d: next pos %r (no progress / symbolic position)" % (w, pos, npos), "sat", 0, [fname], "BV"))
                     continue
                 nm = (1 << npos) - 1
                 nc = ncarry if not type(ncarry) is int else z3.BitVecVal(ncarry, 64)
@@ -345,6 +346,10 @@ def naf_contract(base, chk, w, positions=None):
                 det = ""
                 if r == z3.sat:
                     m = so.model()
+                    try:
+                        model_ks.append(m.eval(kval, model_completion=True).as_long())
+                    except Exception:
+                        pass
                     det = "carry=%s S=%s k=%s next=(%s,%s) digit=%s failing=%s" % (m.eval(carry), m.eval(S), m.eval(kval), npos, m.eval(ncarry) if ncarry is not None and not type(ncarry) is int else ncarry,
                                                                             m.eval(digit) if digit is not None and not type(digit) is int else digit, [i for i, g in enumerate(goals) if z3.is_false(m.eval(g, model_completion=True))])
                 chk.add(Ob("nonAdjacentForm(%d) pos=%d: invariant step / digit range" % (w, pos), str(r), 0, [fname], "BV", detail=det))
@@ -356,6 +361,7 @@ def naf_contract(base, chk, w, positions=None):
         import random
         rng = random.Random(seed)
         ks = [0, 1, 15, 16, 17, 2**252, L - 1, L - 2, (2**253 - 1) % L, 0x5555555555555555555555555555555555555555555555555555555555555555 % L] + [rng.randrange(L) for _ in range(30)]
+        ks += [k_ % L for k_ in models] + ptreplay.structured_scalars()
         res = native.run_ops("", [{"op": "S.nonAdjacentForm", "args": ["s", str(w)], "init": {"s": ptreplay.scalar_words(x)}} for x in ks])
         for x, r in zip(ks, res):
             if "panic" in r:
@@ -368,7 +374,7 @@ def naf_contract(base, chk, w, positions=None):
     if bad_obs:
         hit = None
         try:
-            hit = replay([], chk.seed)
+            hit = replay(model_ks, chk.seed)
         except Exception as e:
             chk.note_inconclusive("replay nonAdjacentForm failed: %r" % (e,))
         for o in bad_obs:
